@@ -72,6 +72,18 @@ SIGS = {
     "f_cl": (f_cl, ["l", "s"], False),
 }
 
+# what the harness knows about the declarations, independently of pyanalyze's bound generation
+DECLARED = {
+    "~TB": ("bound", float), "~TA": ("bound", A),
+    "~TC": ("constraints", (int, str)), "~TD": ("constraints", (float, str, A)),
+}
+# parameters annotated with the bare type variable (index -> type variable name)
+BARE = {
+    "f_xy": {0: "~T", 1: "~T"}, "f_xyz": {0: "~T", 1: "~T", 2: "~T"}, "f_list": {1: "~T"}, "f_seq": {1: "~T"},
+    "f_dict": {1: "~K"}, "f_cb": {0: "~T"}, "f_cbx": {2: "~T"}, "f_b": {0: "~TB", 1: "~TB"}, "f_a": {0: "~TA", 1: "~TA"},
+    "f_c": {0: "~TC", 1: "~TC"}, "f_d": {0: "~TD", 1: "~TD"}, "f_cl": {1: "~TC"},
+}
+
 # argument pools: name -> constructor of the pyanalyze Value (built lazily)
 SCALARS = ["k1", "kTrue", "ka", "k1_5", "kNone", "t_int", "t_str", "t_float", "t_bool", "t_A", "t_B", "t_C", "kAinst", "kBinst", "any", "u_int_str", "u_1_a"]
 LISTS = ["l_int", "l_str", "l_bool", "l_obj", "l_lit1", "l_lit1a", "l_empty", "l_A", "l_B", "tup_int", "k_list12", "any"]
@@ -160,6 +172,26 @@ def check_call(sig_name, arg_names):
     out["solver_error"] = bool(errors)
     if errors and not out["diagnosed"]:
         out["failures"].append({"what": "solver reports an error but the call is accepted"})
+    # independent of pyanalyze's own bound generation: declared bound / constraints, and
+    # arguments passed for parameters annotated with the bare type variable
+    if not errors:
+        from pyanalyze.value import TypedValue
+
+        by_name = {str(tv): v for tv, v in tv_map.items()}
+        for tvn, s in by_name.items():
+            d = DECLARED.get(tvn)
+            if d is None:
+                continue
+            if d[0] == "bound":
+                ok = TypedValue(d[1]).is_assignable(s, c)
+            else:
+                ok = isinstance(s, AnyValue) or any(s == TypedValue(t) for t in d[1])
+            if not ok:
+                out["failures"].append({"what": f"solution {s} of {tvn} violates its declaration {d}", "kind": "declared", "accepted": not out["diagnosed"]})
+        for i, tvn in BARE.get(sig_name, {}).items():
+            s = by_name.get(tvn)
+            if s is not None and not s.is_assignable(arg_value(arg_names[i]), c):
+                out["failures"].append({"what": f"solution {s} of {tvn} does not accept argument {i} = {arg_value(arg_names[i])}", "kind": "argument", "accepted": not out["diagnosed"]})
     for tv, bounds in bm.items():
         out["bounds"] += len(bounds)
         if tv not in tv_map or errors:
